@@ -26,6 +26,7 @@ func (l Lowering) String() string {
 }
 
 type Emitter struct {
+	ctx    *Ctx
 	mode   Lowering
 	buf    strings.Builder // pending definitions not yet sent
 	names  map[*Term]string
@@ -206,6 +207,41 @@ func wrapExpr(raw string, lo, hi *big.Int, s Sort) string {
 	return fmt.Sprintf("(mod %s %s)", raw, intLit(m))
 }
 
+func (e *Emitter) lo(t *Term) *big.Int {
+	if e.ctx != nil {
+		return e.ctx.IV(t).Lo
+	}
+	return t.ILo
+}
+func (e *Emitter) hi(t *Term) *big.Int {
+	if e.ctx != nil {
+		return e.ctx.IV(t).Hi
+	}
+	return t.IHi
+}
+
+func (e *Emitter) rawIv(op Op, a, b *Term) (*big.Int, *big.Int) {
+	alo, ahi := e.lo(a), e.hi(a)
+	switch op {
+	case ONeg:
+		return new(big.Int).Neg(ahi), new(big.Int).Neg(alo)
+	}
+	blo, bhi := e.lo(b), e.hi(b)
+	switch op {
+	case OAdd:
+		return new(big.Int).Add(alo, blo), new(big.Int).Add(ahi, bhi)
+	case OSub:
+		return new(big.Int).Sub(alo, bhi), new(big.Int).Sub(ahi, blo)
+	case OMul:
+		p1 := new(big.Int).Mul(alo, blo)
+		p2 := new(big.Int).Mul(alo, bhi)
+		p3 := new(big.Int).Mul(ahi, blo)
+		p4 := new(big.Int).Mul(ahi, bhi)
+		return minBig(p1, p2, p3, p4), maxBig(p1, p2, p3, p4)
+	}
+	panic("rawIv")
+}
+
 func (e *Emitter) args(t *Term) []string {
 	out := make([]string, len(t.Args))
 	for i, a := range t.Args {
@@ -219,10 +255,10 @@ func absBig(x *big.Int) *big.Int { return new(big.Int).Abs(x) }
 // toU: Int expression of the unsigned representative of a (mod 2^w)
 func (e *Emitter) toU(a *Term) string {
 	n := e.Name(a)
-	if !a.Sort.Signed || a.ILo.Sign() >= 0 {
+	if !a.Sort.Signed || e.lo(a).Sign() >= 0 {
 		return n
 	}
-	if a.IHi.Sign() < 0 {
+	if e.hi(a).Sign() < 0 {
 		return fmt.Sprintf("(+ %s %s)", n, intLit(pow2(a.Sort.W)))
 	}
 	return fmt.Sprintf("(ite (< %s 0) (+ %s %s) %s)", n, n, intLit(pow2(a.Sort.W)), n)
@@ -248,19 +284,19 @@ func (e *Emitter) intExpr(t *Term) string {
 	switch t.Op {
 	case OAdd, OSub, OMul:
 		a := e.args(t)
-		lo, hi := rawIv(t.Op, t.Args[0], t.Args[1])
+		lo, hi := e.rawIv(t.Op, t.Args[0], t.Args[1])
 		op := map[Op]string{OAdd: "+", OSub: "-", OMul: "*"}[t.Op]
 		return wrapExpr(fmt.Sprintf("(%s %s %s)", op, a[0], a[1]), lo, hi, s)
 	case ONeg:
 		a := e.args(t)
-		lo, hi := rawIv(ONeg, t.Args[0], nil)
+		lo, hi := e.rawIv(ONeg, t.Args[0], nil)
 		return wrapExpr(fmt.Sprintf("(- %s)", a[0]), lo, hi, s)
 	case ODiv:
 		a, b := t.Args[0], t.Args[1]
 		an, bn := e.Name(a), e.Name(b)
 		var raw string
-		apos, aneg := a.ILo.Sign() >= 0, a.IHi.Sign() <= 0
-		bpos, bneg := b.ILo.Sign() >= 0, b.IHi.Sign() <= 0
+		apos, aneg := e.lo(a).Sign() >= 0, e.hi(a).Sign() <= 0
+		bpos, bneg := e.lo(b).Sign() >= 0, e.hi(b).Sign() <= 0
 		q := func(x, y string) string { return fmt.Sprintf("(div %s %s)", x, y) }
 		neg := func(x string) string { return fmt.Sprintf("(- %s)", x) }
 		bsel := func(x string, xneg bool) string {
@@ -286,25 +322,25 @@ func (e *Emitter) intExpr(t *Term) string {
 		default:
 			raw = fmt.Sprintf("(ite (>= %s 0) %s %s)", an, bsel(an, false), bsel(neg(an), true))
 		}
-		m := maxBig(absBig(a.ILo), absBig(a.IHi))
+		m := maxBig(absBig(e.lo(a)), absBig(e.hi(a)))
 		return wrapExpr(raw, new(big.Int).Neg(m), m, s)
 	case ORem:
 		a, b := t.Args[0], t.Args[1]
 		an, bn := e.Name(a), e.Name(b)
 		babs := bn
-		if b.ILo.Sign() < 0 {
+		if e.lo(b).Sign() < 0 {
 			babs = fmt.Sprintf("(abs %s)", bn)
 		}
 		switch {
-		case a.ILo.Sign() >= 0:
+		case e.lo(a).Sign() >= 0:
 			return fmt.Sprintf("(mod %s %s)", an, babs)
-		case a.IHi.Sign() <= 0:
+		case e.hi(a).Sign() <= 0:
 			return fmt.Sprintf("(- (mod (- %s) %s))", an, babs)
 		}
 		return fmt.Sprintf("(ite (>= %s 0) (mod %s %s) (- (mod (- %s) %s)))", an, an, babs, an, babs)
 	case OConv:
 		a := t.Args[0]
-		return wrapExpr(e.Name(a), a.ILo, a.IHi, s)
+		return wrapExpr(e.Name(a), e.lo(a), e.hi(a), s)
 	case OExtract:
 		a := t.Args[0]
 		x := e.toU(a)
@@ -312,8 +348,8 @@ func (e *Emitter) intExpr(t *Term) string {
 			x = fmt.Sprintf("(div %s %s)", x, intLit(pow2(t.Lo)))
 		}
 		// upper bound of a as unsigned
-		ahi := a.IHi
-		if a.Sort.Signed && a.ILo.Sign() < 0 {
+		ahi := e.hi(a)
+		if a.Sort.Signed && e.lo(a).Sign() < 0 {
 			ahi = USort(a.Sort.W).Max()
 		}
 		if ahi.Cmp(pow2(t.Hi+1)) >= 0 {
@@ -350,8 +386,8 @@ func (e *Emitter) intExpr(t *Term) string {
 		if bc, ok := b.ConstInt64(); ok && bc < 128 {
 			an := e.Name(a)
 			if t.Op == OShl {
-				lo := new(big.Int).Lsh(a.ILo, uint(bc))
-				hi := new(big.Int).Lsh(a.IHi, uint(bc))
+				lo := new(big.Int).Lsh(e.lo(a), uint(bc))
+				hi := new(big.Int).Lsh(e.hi(a), uint(bc))
 				return wrapExpr(fmt.Sprintf("(* %s %s)", an, intLit(pow2(int(bc)))), lo, hi, s)
 			}
 			return fmt.Sprintf("(div %s %s)", an, intLit(pow2(int(bc)))) // floor division == arithmetic shift
